@@ -342,6 +342,19 @@ def run_case(case):
                 fr, data = conn.stream_frames([(0 if d == "c" else 3, 20 + i)])
                 conn.dgram(d, [conn.short_pkt(d, fr, gen=g)], stream=data, tag=f"ku-{d}{g}")
             one({}, {"layer": "U", "history": "".join(f"{d}{g}" for d, g in h)}, conn=conn)
+            if max(g for _, g in h) >= 2:
+                # the same history with the server's packets also carrying a complete post-handshake message (NewSessionTicket)
+                # in a CRYPTO frame next to the stream data
+                conn = scen.quic_conn({"standard": True, "script": []}, seed, key=("ku-nst", str(h)))
+                off = 0
+                for i, (d, g) in enumerate(h):
+                    fr, data = conn.stream_frames([(0 if d == "c" else 3, 20 + i)])
+                    if d == "s":
+                        nst = quic.hs_msg(4, bytes([i]) * 40)
+                        fr = fr + qf.crypto(off, nst)[0]
+                        off += len(nst)
+                    conn.dgram(d, [conn.short_pkt(d, fr, gen=g)], stream=data, tag=f"ku-{d}{g}")
+                one({}, {"layer": "U", "history": "".join(f"{d}{g}" for d, g in h), "new_session_tickets": True}, conn=conn)
         count["states"] = case["states"]
         count["transitions"] = case["transitions"]
         count["ku_histories"] = len(case["hists"])
